@@ -23,7 +23,7 @@ CHECKS = {
  "C06": ("exploration", "runtime monitor: model comparison of the hybrid index and of every sub-index searched directly after each op, plus metamorphic before==after batteries around every failing op; per-kind update clause on 7 index kinds",
          "Held on 300/6000 hybrid histories (failing adds in the 1st and 3rd sub-index, removals of unknown/removed ids, re-adds with flush before/between/after) and 210/4200 per-kind update histories.",
          "Reference = hybrid model of C05; before/after batteries use tie-free complete answers so map-order tie-breaking cannot raise an alarm.", "DESIGN.md §4 C06"),
- "C07": ("exploration", "runtime monitor: differential source-vs-reloaded comparison of a fixed battery of complete answers over generated states of all 8 kinds, through three reader shapes with a trailing sentinel (exact consumption), byte-count checks, concatenated streams, identical continuation histories",
+ "C07": ("exploration", "runtime monitor: differential source-vs-reloaded comparison of a fixed battery of complete answers over generated states of all 8 kinds, through three reader shapes with a trailing sentinel (exact consumption), byte-count checks, concatenated streams, identical continuation histories; plus large (2^14..70000 vectors) and wide (1025..4097 components) flat states and hybrids over trained IVF / PQ / IVFPQ indexes that hold no vector when written",
          "Held (apart from a listed known finding) on 320/8000 states incl. empty, untrained, all-removed and numeric-field-emptied states; each state round-trips 3 readers + a concatenated pair + a continuation.",
          "Differential oracle (the source's own correctness is C01-C06); node-id queries excluded for PQ/IVFPQ; HNSW kept in its exact regime.", "DESIGN.md §4 C07"),
  "C16": ("fault_enumeration", "runtime fault enumeration: every strict prefix of each generated stream (all offsets up to 8 KiB, field boundaries +-1 and a sample beyond) read into a fresh receiver under recover + watchdog; full kind x kind and one-parameter-off mismatch matrix; version patch; every prefix of every component file of a damaged segment opened through the store",
@@ -32,10 +32,10 @@ CHECKS = {
  "C08": ("exploration", "runtime monitor: acknowledged-write visibility model over generated sequential store histories (every search twice and again after the next op), differential vector-only id sets vs an in-memory index, hook-driven targeted schedules (action run beside a goroutine paused at each hook point; sampled depth-2 schedules where that action is itself paused while a third runs), refused writes whose ids may never surface, structural instance-ownership monitor",
          "Held (apart from the listed compaction finding) on 120/2500 histories over memtable limits from one document up, synchronous and background flushes, forced rotations, compactions, cache evictions, plus 217/1302 depth-1 targeted schedules over 31 hook points x 7 actions and 60/900 sampled depth-2 schedules; ~14k index instances tracked for sharing.",
          "Background-flush interleavings are whatever the scheduler produces (the oracle does not depend on them); compaction losses are matched per document against the doc->segment map read back from disk.", "DESIGN.md §4 C08"),
- "C09": ("exploration", "runtime monitor: durable-set model over multi-session open/add/flush/close histories, every open with freshly constructed templates, one all-matching query per modality after every reopen (twice), sha256 of earlier segment files and id monotonicity checked after every acknowledged flush (after every Close when the background flush worker is on), a directory image reopened right after every acknowledged mid-session Flush, injected file-creation faults, a store trained late and restarted",
+ "C09": ("exploration", "runtime monitor: durable-set model over multi-session open/add/flush/close histories, every open with freshly constructed templates, one all-matching query per modality after every reopen (twice), sha256 of earlier segment files and id monotonicity checked after every acknowledged flush (after every Close when the background flush worker is on), a directory image reopened right after every acknowledged mid-session Flush, injected file-creation faults, a store trained late and restarted, an Add acknowledged while an explicit Flush is held inside its segment write, IVF stores reopened with an untrained template",
          "Held on 60/1500 multi-session cases over flat / HNSW / trained IVF / PQ / IVFPQ / no vector template, with and without text and metadata, memtable limits from one document up, every third case with the real background flush worker, compaction thresholds 2..1000; plus 16/200 trained-late restarts.",
          "Reopen in the same process with fresh template objects (new process in the thorough tier); HNSW kept exact per segment, IVF searched at full probe.", "DESIGN.md §4 C09"),
- "C10": ("fault_enumeration", "runtime fault enumeration: directory snapshot at every crash:* hook point of flush / compaction / deletion plus every byte prefix of every in-flight file, each distinct image reopened with fresh templates and checked against the durable-set model, per-segment all-or-nothing and id-reuse checks",
+ "C10": ("fault_enumeration", "runtime fault enumeration: directory snapshot at every crash:* hook point of flush / compaction / deletion plus every byte prefix of every in-flight file, each distinct image reopened with fresh templates and checked against the durable-set model, per-segment all-or-nothing and id-reuse checks, a second restart on every image, simultaneous first searches on every fourth image",
          "Enumerated ~110 boundaries and ~9000 distinct crash images per quick run (8 histories with 0-3 completed flushes, interrupted flush or compaction); byte prefixes exhaustive (all files < 4 KiB).",
          "Process-death semantics (page cache survives); files are written sequentially so intermediate states are prefixes; power loss / fsync is outside the property.", "DESIGN.md §4 C10"),
  "C11": ("exploration", "Go race detector over shared-instance stress workloads of all 9 kinds + recorded client-boundary histories checked by an interval form of the visibility sentence and by porcupine (per-id present/absent registers), post-quiescence state check, auto-id uniqueness, hook-driven targeted store schedules (depth 1, sampled depth 2, remove-vs-flush, Close-vs-everything), watchdog with goroutine-dump deadlock classification",
